@@ -63,7 +63,7 @@ theorem setValue_accepted (db db' : Db) (c : Change) (k v : Bytes) (ps : List Pu
 and value, based on the stored version, stamped with a newer op id). -/
 theorem newer_apply_accepted (n : Node) (db : Db) (c : Change) (B : Int)
     (hst : db.strategy = .newer) (hc : ClockInv c.opId db) (hcl : c.opId < n.clock)
-    (hv : VerInvB B db) (hB : B < 2147483647) (hver : -1 ≤ c.version) (hres : c.resolve = false) :
+    (hv : VerInvB B db) (hB : B < 2147483647) (hver : c.version ≠ -2) (hres : c.resolve = false) :
     ∃ (c₂ : Change) (n₂ : Node) (db₂ : Db) (ps₂ : List Push),
       n.applyChange db c = (n₂, db₂, .set c.key c.value, pushes ps₂) ∧
       db.setValue c₂ = (db₂, .set c.key c.value, ps₂) ∧
@@ -109,14 +109,14 @@ structure Write where
 
 /-- **Never refused, last write stored, version grows, watchers told exactly once.**
 For every newer database whose stored versions are below the `i32` cap, every clock, and every
-plain or versioned write (any version ≥ -1, stale ones included): the reply is `Set key value`
+plain or versioned write (ANY version except the in-conflict marker -2: stale ones included, and versions below the markers — -3, `i32::MIN` — which are just very stale): the reply is `Set key value`
 naming the value that is stored afterwards; the plain map changes exactly at that key; the stored
 version is strictly above the previous one; and what is pushed is exactly one
 `changed` / `changed-version` pair per registered watcher of the key, carrying the stored value
 and version. -/
 theorem C19_write (n : Node) (db : Db) (w : Write) (B : Int)
     (hst : db.strategy = .newer) (hc : ClockInv n.clock db) (hv : VerInvB B db) (hB : B < 2147483647)
-    (hver : -1 ≤ w.version) :
+    (hver : w.version ≠ -2) :
     let r := n.setKeyValue db w.key w.value w.version
     r.2.2.1 = .set w.key w.value ∧
     r.2.1.view = fupd db.view w.key (some w.value) ∧
@@ -146,7 +146,7 @@ theorem C19_write_inv (n : Node) (db : Db) (w : Write) (B : Int)
   simp only [Node.setKeyValue, Node.tick]
   obtain ⟨c₂, n₂, db₂, ps₂, happ, hset, hk, hvl, hkc, hop, hcl, hwhich⟩ :=
     newer_apply_accepted { n with clock := n.clock + 1 } db
-      { key := w.key, value := w.value, version := w.version, opId := n.clock, resolve := false } B hst hc (by simp) hv hB hver.1 rfl
+      { key := w.key, value := w.value, version := w.version, opId := n.clock, resolve := false } B hst hc (by simp) hv hB (by have := hver.1; simp only []; omega) rfl
   rw [happ]
   obtain ⟨_, _, hstr, _, ⟨e, he, _, heop, _, hold, hnone⟩, hother⟩ := setValue_accepted db db₂ c₂ w.key w.value ps₂ hkc hset
   simp only [] at hk hvl hcl
@@ -224,7 +224,7 @@ theorem applyWrites_view (ws : List Write) : ∀ (n : Node) (db : Db) (B : Int),
     simp only [List.length_cons] at hB
     have hB' : B < 2147483647 := by omega
     have hwv := hw w (by simp)
-    obtain ⟨_, hview, _⟩ := C19_write n db w B hst hc hv hB' hwv.1
+    obtain ⟨_, hview, _⟩ := C19_write n db w B hst hc hv hB' (by have := hwv.1; omega)
     obtain ⟨hst', hc', hv'⟩ := C19_write_inv n db w B hst hc hv hB' hwv
     simp only [applyWrites, viewAfter]
     rw [← hview]
@@ -256,6 +256,28 @@ example :
                       sessions := [], clock := 5, members := [], pending := [], toSnapshot := [], keysMap := [], oplogValid := true }
     let r0 := n.setKeyValue (Db.new [116] 1 .newer) [107] [49] 7
     ((r0.1.setKeyValue r0.2.1 [107] [50] 0).2.2.1, ((r0.1.setKeyValue r0.2.1 [107] [50] 0).2.1.getKV [107])) = (.set [107] [50], ([50], 9)) := by
+  decide
+
+/-- non-vacuity below the markers: a write with version -3 (and one with `i32::MIN`) to a key at version 9 is
+resolved like any stale write — answered `Set`, stored one version up (what seeded change C19-7 broke: it
+stored the -3) -/
+example :
+    let n : Node := { user := [], pwd := [], addr := [], pid := 1, role := .primary, dbs := [], idName := [],
+                      sessions := [], clock := 5, members := [], pending := [], toSnapshot := [], keysMap := [], oplogValid := true }
+    let r0 := n.setKeyValue (Db.new [116] 1 .newer) [107] [49] 7
+    ((r0.1.setKeyValue r0.2.1 [107] [50] (-3)).2.2.1, ((r0.1.setKeyValue r0.2.1 [107] [50] (-3)).2.1.getKV [107]),
+     ((r0.1.setKeyValue r0.2.1 [107] [51] (-2147483648)).2.1.getKV [107])) = (.set [107] [50], ([50], 9), ([51], 9)) := by
+  decide
+
+/-- the corner the hypothesis `version ≠ -2` is next to, on the model as on the code: the first version of a
+key is the written one plus one, so version -3 written to an ABSENT key stores the in-conflict marker -2,
+and `keep_in_conflict_resolution` then pins it there through later writes (recorded in DESIGN §0a.4: odd,
+and outside what C19 states — the version does not shrink) -/
+example :
+    let n : Node := { user := [], pwd := [], addr := [], pid := 1, role := .primary, dbs := [], idName := [],
+                      sessions := [], clock := 5, members := [], pending := [], toSnapshot := [], keysMap := [], oplogValid := true }
+    let r0 := n.setKeyValue (Db.new [116] 1 .newer) [107] [49] (-3)
+    (r0.2.1.getKV [107], (r0.1.setKeyValue r0.2.1 [107] [50] (-1)).2.1.getKV [107]) = (([49], -2), ([50], -2)) := by
   decide
 
 end Nun
